@@ -903,6 +903,14 @@ func runC12(c *CaseCtx) (res CaseResult) {
 		}
 		res.obs("executions_isolation_checked", 1)
 	}
+	for i, cv := range s.Convs {
+		if cv.Once && cv.Deliver != DelRaw {
+			res.obs("shared_run_once_converters", 1)
+			if n := w.Execs(i); n > 1 {
+				res.violate("C11", "once-reexecuted-concurrently", fmt.Sprintf("shared run-once converter c%d executed %d times", i, n), det(""))
+			}
+		}
+	}
 	res.NonTrivial = G >= 4 && len(s.Convs) >= 1
 	res.obs("family."+fam, 1)
 	res.Sample = map[string]interface{}{"scenario": s.String(), "goroutines": G, "rounds": rounds, "gomaxprocs": procs, "shared_options": len(sharedOpts)}
